@@ -273,8 +273,11 @@ pub fn c01(tier: Tier) -> ! {
                     while l > 1.2 * r {
                         for &x in [0., 0.03, -0.05].iter() {
                             for &y in [-0.17, 0.08, 0.33].iter() {
-                                for &phi in phis.iter() {
-                                    let p = Params { length: l, ratio, angle: PI / 2., x, y, phi };
+                                for (pi, &phi) in phis.iter().enumerate() {
+                                    // (every other orientation with the site stored three cells
+                                    // along x and two cells back along y: the same crystal)
+                                    let (sx, sy) = if pi % 2 == 1 { (3., -2.) } else { (0., 0.) };
+                                    let p = Params { length: l, ratio, angle: PI / 2., x: x + sx, y: y + sy, phi };
                                     c01_eval(&tpl, group, spec, &body, &p, &mut out, "mid-cell sites");
                                 }
                             }
@@ -883,6 +886,31 @@ pub fn c03(tier: Tier) -> ! {
                                             fails.push((rkey, format!("{} {}: the same crystal described with the site shifted by ({}, {}) scores {:?} instead of {:?}", group, spec.label(), dx, dy, s2, base_score), json!({"engine": "state", "group": group, "shape": sj, "shape_label": spec.label(), "params": p.json(), "shifted_params": q.json()})));
                                         }
                                     }
+                                }
+                            }
+                        }
+                    }
+                }
+            }
+        }
+        // large, strongly oblique cells with the molecules near the acute corners: the closest
+        // contact runs through the lattice vector A + B (or A - B)
+        if mono_free {
+            for &angle in [0.6, 0.8, 2.4].iter() {
+                for &length in [3. * r, 5. * r, 9. * r].iter() {
+                    for &(x, y) in [(0.44, 0.44), (-0.45, -0.45), (0.48, 0.4), (0.45, -0.44)].iter() {
+                        for &phi in phis.iter().take(2) {
+                            let p = Params { length, ratio: 1., angle, x, y, phi };
+                            let st = AnyState::from_json(&tpl.with(&p)).unwrap_or_else(|e| machinery_error(&e));
+                            evals += 1;
+                            let (o, fail) = c03_judge(&st, &sj, &p);
+                            if o.map(|v| v.pairs > 0).unwrap_or(false) {
+                                nontrivial += 1;
+                            }
+                            if let Some((key, what)) = fail {
+                                fail_count += 1;
+                                if fails.len() < 4 {
+                                    fails.push((key, format!("{} {} (molecules near the acute corners of an oblique cell): {}", group, spec.label(), what), json!({"engine": "state", "group": group, "shape": sj, "shape_label": spec.label(), "params": p.json()})));
                                 }
                             }
                         }
